@@ -139,3 +139,20 @@ def exact_len_conv(field):
                 x = x[2][0]
             return x, int(m.group(1) or m.group(2))
     return None
+
+def empty_bytes(t):
+    """t is statically the empty byte string: an empty buffer, or the default of an Option<Vec<u8>> that is None through
+    None-preserving plumbing (map / transpose / ok)."""
+    if t in (("cat", ()), ("concat", ()), ("vec", ("concat", ())), ("zeros", 0), ("b", b""), ("bytes", b"")):
+        return True
+    if isinstance(t, tuple) and t and t[0] == "call" and t[1].endswith("::unwrap_or_default") and len(t[2]) == 1:
+        x = t[2][0]
+        for _ in range(6):
+            if isinstance(x, tuple) and x and x[0] == "ok":
+                x = x[1]
+            elif isinstance(x, tuple) and x and x[0] == "call" and (x[1] == "Option::map" or x[1].endswith("::transpose")) and x[2]:
+                x = x[2][0]
+            else:
+                break
+        return x == ("agg", "adt:Option::None", ())
+    return False
